@@ -1,0 +1,38 @@
+// Copyright 2023 Google LLC
+//
+// Licensed under the Apache License, Version 2.0 (the "License");
+// you may not use this file except in compliance with the License.
+// You may obtain a copy of the License at
+//
+//     http://www.apache.org/licenses/LICENSE-2.0
+//
+// Unless required by applicable law or agreed to in writing, software
+// distributed under the License is distributed on an "AS IS" BASIS,
+// WITHOUT WARRANTIES OR CONDITIONS OF ANY KIND, either express or implied.
+// See the License for the specific language governing permissions and
+// limitations under the License.
+
+//go:build verif
+
+package pypi
+
+import "deps.dev/util/resolve"
+
+// VerifStep, when set, receives one event per round of the resolution loop:
+// the package chosen for pinning and what happened ("pin" with the version
+// pinned, "backtrack", or "impossible" when all options are exhausted), and
+// "done" with the number of pinned packages when nothing is left unsatisfied.
+// It exists only in builds with the verif tag.
+var VerifStep func(name, version, outcome string, pins int)
+
+func verifRound(r *resolution, name resolve.PackageKey, outcome string) {
+	if VerifStep == nil {
+		return
+	}
+	version := ""
+	if outcome == "pin" {
+		pinned, _ := r.state().mapping.Get(name)
+		version = pinned.Version
+	}
+	VerifStep(name.Name, version, outcome, r.state().mapping.Len())
+}
